@@ -206,9 +206,27 @@ func (s *c02Seq) seed() {
 }
 
 // step performs one derived operation; returns false after a violation.
+// c02Texts: contents of binary values - JSON with and without comments, lisp text, bytes that are not UTF-8 when cut.
+var c02Texts = []string{`{"a": 1, // first\n "b": [1, 2]}`, `[1, /* two */ 2, "x//y"]`, `{"k":"v"}`, `[1,2,3]`, `(+ 1 2) ; c`, `plain text`, `caf\u00e9 \\ "q"`, ``}
+
+func isBinN(n *canon.Node) bool { return n.K == canon.Opaque && strings.HasPrefix(n.S, "binary:") }
+
 func (s *c02Seq) step() bool {
 	r := s.r
-	switch r.Intn(39) {
+	switch r.Intn(42) {
+	case 39:
+		// binary values are data too (statement: everything except atoms and futures)
+		t := c02Texts[r.Intn(len(c02Texts))]
+		if r.Intn(2) == 0 {
+			return s.bind(fmt.Sprintf("(str2binary %q)", t), "binary-new", false)
+		}
+		return s.bind(fmt.Sprintf("(unbase64 (base64 (str2binary %q)))", t), "binary-new", false)
+	case 40, 41:
+		if b := s.pick(isBinN); b != nil {
+			use := []string{"(json-decode {} %s)", "(json-decode [] %s)", "(json-decode (list) %s)", "(binary2str %s)", "(base64 %s)", "(str %s)", "(pr-str %s)", "(list %s %s)", "(= %s %s)", "(hash-map :b %s)", "(read-string (binary2str %s))", "(count %s)", "(first %s)", "(conj [] %s)"}[r.Intn(14)]
+			return s.bind(strings.ReplaceAll(use, "%s", b.name), "binary-use", false, b)
+		}
+		return s.bind(fmt.Sprintf("(str2binary %q)", c02Texts[r.Intn(len(c02Texts))]), "binary-new", false)
 	case 0, 1, 2, 3:
 		if v := s.pick(isSeqN); v != nil {
 			n := 1 + r.Intn(2)
